@@ -1,8 +1,12 @@
 #!/bin/bash
-# Builds the verification harness offline (and /repo as a path dependency, hooks enabled).
+# Builds the verification harness offline (and /repo as a path dependency, hooks enabled),
+# the repository's `mc` tool (used by C02) and installs the reference solver under the solver names.
 set -e
 mkdir -p /verif/target /verif/evidence
 cd /verif/harness
 export CARGO_NET_OFFLINE=true
 cargo build --release --offline 2>&1 | tail -3
+cargo build --release --offline -p mc --manifest-path /repo/Cargo.toml --target-dir /verif/target/repo-tools 2>&1 | tail -2
+mkdir -p /verif/target/solverbin
+for n in bitwuzla yices-smt2 z3 cvc5; do ln -sf /verif/target/release/refsolver /verif/target/solverbin/$n; done
 echo "setup ok"
